@@ -138,20 +138,25 @@ class MacroProcessor:
             if match.group(2) and match.group(3):
                 from dateutil.relativedelta import relativedelta
 
-                start_date = datetime.strptime(match.group(1), "%Y-%m-%d")
-                amount = int(match.group(2))
-                unit = match.group(3)
-                if unit == "d":
-                    end_date = start_date + relativedelta(days=amount)
-                elif unit == "w":
-                    end_date = start_date + relativedelta(weeks=amount)
-                elif unit == "m":
-                    end_date = start_date + relativedelta(months=amount)
-                elif unit == "y":
-                    end_date = start_date + relativedelta(years=amount)
-                else:
-                    end_date = start_date
-                self._project_end = end_date.strftime("%Y-%m-%d")
+                try:
+                    start_date = datetime.strptime(match.group(1), "%Y-%m-%d")
+                    amount = int(match.group(2))
+                    unit = match.group(3)
+                    if unit == "d":
+                        end_date = start_date + relativedelta(days=amount)
+                    elif unit == "w":
+                        end_date = start_date + relativedelta(weeks=amount)
+                    elif unit == "m":
+                        end_date = start_date + relativedelta(months=amount)
+                    elif unit == "y":
+                        end_date = start_date + relativedelta(years=amount)
+                    else:
+                        end_date = start_date
+                    self._project_end = end_date.strftime("%Y-%m-%d")
+                except (ValueError, OverflowError):
+                    # Impossible date or a duration that leaves the calendar: the parser
+                    # proper reports it; ${projectend} simply stays undefined
+                    self._project_end = None
 
         # Look for 'now' attribute
         match = re.search(r"now\s+(\d{4}-\d{2}-\d{2})", content)
